@@ -58,7 +58,7 @@ PLANS = {
     "C01": plan(Q01, scale(Q01, 40),
                 ">=2 clients submitted and both the waiting and the forcing path were used",
                 ["C01.R1", "C01.R2", "C01.R3.cross_client.wait_force", "C01.R3.cross_client.force_wait",
-                 "C01.R3.same_client.wait_force", "C01.R3.same_client.force_wait", "C01.R4.fold", "C01.R4.reply", "C01.R4.join", "C01.R5.burst_in_order", "C01.R5.burst_messages", "C01.R5.burst_count"],
+                 "C01.R3.same_client.wait_force", "C01.R3.same_client.force_wait", "C01.R3.ping_is_a_barrier", "C01.R4.fold", "C01.R4.reply", "C01.R4.join", "C01.R5.burst_in_order", "C01.R5.burst_messages", "C01.R5.burst_count"],
                 mt=[('mailbox', 400), ('backpressure', 120), ('burst', 480), ('mix', 160)], mt_required=['L2:C01.R1', 'L2:C01.R3.cross_client.wait_force', 'L2:C01.R4.reply', 'L2:C01.R5.burst_in_order', 'L2:C01.R5.burst_count']),
     "C02": plan(Q02, scale(Q02, 40),
                 ">=2 clients issued calls through >=2 handle kinds",
